@@ -1154,6 +1154,11 @@ class DiskRefsContainer(RefsContainer):
         ):
             # No cache: no peeled refs were read, or this ref is loose
             return None
+        if self.read_loose_ref(name) is not None:
+            # A loose ref takes precedence over the packed entry; what
+            # packed-refs knows about the peeled value of the latter says
+            # nothing about the value the ref has now
+            return None
         if name in self._peeled_refs:
             return self._peeled_refs[name]
         else:
